@@ -257,6 +257,9 @@ pub fn print_lexer(spec: &Spec, opts: &PrintOpts) -> String {
         } else {
             (String::new(), String::new(), format!("{}    ", ind))
         };
+        for (n, r) in &set.pre_lets {
+            s.push_str(&format!("{}    let {} = {};\n", ind, n, rp.print(r)));
+        }
         s.push_str(&open);
         for e in &set.entries {
             match e {
@@ -279,6 +282,9 @@ pub fn summarize(spec: &Spec) -> String {
     let mut rp = RePrinter::new(Paren::Minimal, 0);
     let mut parts = vec![];
     for set in &spec.sets {
+        for (n, r) in &set.pre_lets {
+            parts.push(format!("let {}={}", n, rp.print(r)));
+        }
         let mut rs = vec![];
         for e in &set.entries {
             match e {
